@@ -109,8 +109,28 @@ let report line codes =
     Printf.printf "FAIL %s :: %s\n" (codes_to_string codes) line
   end
 
+let fop_of_token = function
+  | "Sqrt" -> Some FSqrt | "Cbrt" -> Some FCbrt | "Exp" -> Some FExp | "Ln" -> Some FLn
+  | "Log10" -> Some FLog10 | "Pow" -> Some FPow | _ -> None
+
 let judge_arith (lhs : string list) (rhs : string list) (line : string) =
   match lhs, rhs with
+  | [_; opn; p; emax; emin; traps; rnd; x; y0; _; al; _], [d; cnd; er; extra; xpost; ypost; ctxsame]
+    when !prop = "C08" && fop_of_token opn <> None ->
+    let y = if al = "xy" || al = "dxy" then x else y0 in
+    (* special-operand cells of the iterative functions: table + model prologue *)
+    let f = (match fop_of_token opn with Some f -> f | None -> FExp) in
+    let c = mkCtx (z_of_dec_string p) (z_of_dec_string emax) (z_of_dec_string emin)
+              (cond_of_Z (z_of_dec_string traps)) (rounder_of_token rnd) in
+    let craw = z_of_dec_string cnd in
+    let o = mkObs (dec_req d) (cond_of_Z craw) craw (err_of_token er) (z_of_dec_string extra)
+              (dec_of_token xpost) (dec_of_token ypost) (ctxsame = "1") in
+    bump opcount opn;
+    if cnd <> "0" || d <> x then Hashtbl.replace nontrivial (String.concat " " lhs) ();
+    let xd = dec_req x and yd = dec_req y in
+    report line (oracle_c08_fn f c xd yd o @ corr_prologue f c xd yd o
+                 @ (match xpost with "_" -> [] | t -> if t = x then [] else [z_of_int 7])
+                 @ (match ypost with "_" -> [] | t -> if t = y then [] else [z_of_int 7]))
   | [_; opn; p; emax; emin; traps; rnd; x; _; _; _; _], [d; cnd; er; extra; xpost; ypost; ctxsame]
     when opn = "Sqrt" || opn = "Cbrt" ->
     let c = mkCtx (z_of_dec_string p) (z_of_dec_string emax) (z_of_dec_string emin)
